@@ -7,3 +7,4 @@ pub mod rows;
 pub mod simmeta;
 pub mod gen;
 pub mod qenv;
+pub mod cenv;
